@@ -19,19 +19,19 @@ Qed.
 (* a level where nothing is refused: inside an element, or anywhere in fragment mode *)
 Definition free (m : mode) (top : bool) : bool := negb top || match m with MFrag => true | MDoc => false end.
 
-Lemma admits_free : forall t m top n c, free m top = true -> admits t m top n c = true.
-Proof. intros t m top n c H. unfold admits, free in *. destruct top, m; try reflexivity; discriminate. Qed.
+Lemma accepts_free : forall t m top n c, free m top = true -> accepts t m top n c = true.
+Proof. intros t m top n c H. unfold accepts, free in *. destruct top, m; try reflexivity; discriminate. Qed.
 
 Lemma lflush_free : forall t m top b c, free m top = true -> lflush t m top (b, c) = Some ([], txt b ++ c).
 Proof.
   intros t m top b c H. unfold lflush, lappend. cbn [fst snd]. destruct b; [reflexivity|].
-  rewrite admits_free by exact H. reflexivity.
+  rewrite accepts_free by exact H. reflexivity.
 Qed.
 
 Lemma lnode_free : forall t m top n b c, free m top = true -> lnode t m top n (b, c) = Some ([], n :: txt b ++ c).
 Proof.
   intros. unfold lnode. rewrite lflush_free by assumption. cbn [bind]. unfold lappend. cbn [fst snd].
-  rewrite admits_free by assumption. reflexivity.
+  rewrite accepts_free by assumption. reflexivity.
 Qed.
 
 Lemma lchars_free : forall t m top s b c, free m top = true -> lchars t m top s (b, c) = Some (b ++ s, c).
@@ -89,7 +89,7 @@ Proof.
       - intros top Hf b c. unfold goal_at. cbn [procs flat_map bind]. rewrite lflush_free by exact Hf.
         rewrite mt_text_end, rev_txt. reflexivity.
       - inversion H as [|? ? Hx Hr]; subst. apply Hx. apply IH. exact Hr. }
-    rewrite proc_elem, lflush_free by exact Hfree. cbn [bind snd]. rewrite admits_free by exact Hfree.
+    rewrite proc_elem, lflush_free by exact Hfree. cbn [bind snd]. rewrite accepts_free by exact Hfree.
     rewrite (elem_step' t m res n a body (txt b ++ c) HQ). cbn [bind img app].
     apply after_node; [reflexivity|apply HR; exact Hfree|reflexivity].
   - (* characters *)
@@ -141,7 +141,7 @@ Proof. destruct b; reflexivity. Qed.
 
 Lemma lflush_doc : forall t b c, inv t b -> lflush t MDoc true (b, c) = Some ([], txt b ++ c).
 Proof.
-  intros t b c H. unfold lflush, lappend, admits. cbn [fst snd negb orb]. destruct b as [|x b]; [reflexivity|].
+  intros t b c H. unfold lflush, lappend, accepts. cbn [fst snd negb orb]. destruct b as [|x b]; [reflexivity|].
   destruct t; cbn in H.
   - cbn [root_ok is_empty negb andb]. unfold all_ws. cbn [forallb]. rewrite H. reflexivity.
   - discriminate.
@@ -150,7 +150,7 @@ Qed.
 Lemma lnode_doc : forall t n b c, inv t b -> root_ok t MDoc n (txt b ++ c) = true ->
   lnode t MDoc true n (b, c) = Some ([], n :: txt b ++ c).
 Proof.
-  intros t n b c H Hr. unfold lnode. rewrite lflush_doc by exact H. cbn [bind]. unfold lappend, admits.
+  intros t n b c H Hr. unfold lnode. rewrite lflush_doc by exact H. cbn [bind]. unfold lappend, accepts.
   cbn [fst snd negb orb]. rewrite Hr. reflexivity.
 Qed.
 
@@ -166,7 +166,7 @@ Proof.
   - cbn [procs flat_map]. destruct i as [n a body|s|s|s|s|pa pb|s|nm]; cbn [top_ok_go] in Hok.
     + (* the document element *)
       apply andb_prop in Hok. destruct Hok as [Hseen Hok].
-      rewrite proc_elem, lflush_doc by exact Hinv. cbn [bind snd]. unfold admits. cbn [negb orb root_ok].
+      rewrite proc_elem, lflush_doc by exact Hinv. cbn [bind snd]. unfold accepts. cbn [negb orb root_ok].
       rewrite existsb_txt, Hseen.
       rewrite (elem_step' t MDoc res n a body (txt b ++ c) (Q_free_all t MDoc res body)). cbn [bind img app].
       apply after_node; [reflexivity| |reflexivity].
@@ -215,17 +215,17 @@ Proof.
     assert (Hl1 : fst l1 = []).
     { destruct i as [n a body|s|s|s|s|pa pb|s|nm].
       - rewrite proc_elem in E. cbn [lflush fst bind snd] in E.
-        destruct (admits _ _ _ _ _); [|discriminate].
+        destruct (accepts _ _ _ _ _); [|discriminate].
         destruct (procs STREE MDoc res false body ([], [])) as [l2|]; [|discriminate]. cbn [bind] in E.
         destruct (lflush STREE MDoc false l2); [|discriminate]. inversion E; reflexivity.
       - cbn in E. destruct (all_ws s); inversion E; reflexivity.
       - cbn [proc lnode lflush fst bind] in E. unfold lappend in E. cbn [fst snd] in E.
-        destruct (admits _ _ _ _ _); [|discriminate]. cbn [bind lchars] in E. destruct (all_ws s); inversion E; reflexivity.
+        destruct (accepts _ _ _ _ _); [|discriminate]. cbn [bind lchars] in E. destruct (all_ws s); inversion E; reflexivity.
       - cbn [proc] in E. destruct s_cdata_is_characters.
         + cbn in E. destruct (all_ws s); inversion E; reflexivity.
         + inversion E; reflexivity.
-      - cbn [proc lnode lflush fst bind] in E. unfold lappend in E. destruct (admits _ _ _ _ _); inversion E; reflexivity.
-      - cbn [proc lnode lflush fst bind] in E. unfold lappend in E. destruct (admits _ _ _ _ _); inversion E; reflexivity.
+      - cbn [proc lnode lflush fst bind] in E. unfold lappend in E. destruct (accepts _ _ _ _ _); inversion E; reflexivity.
+      - cbn [proc lnode lflush fst bind] in E. unfold lappend in E. destruct (accepts _ _ _ _ _); inversion E; reflexivity.
       - inversion E; reflexivity.
       - inversion E; reflexivity. }
     destruct l1 as [b1 c1]. cbn in Hl1. subst b1. eapply IH. exact H.
@@ -240,12 +240,14 @@ Theorem builds_den_t : forall t m res items,
   run_target t m res (script items) = Some (den_t t m res items).
 Proof.
   intros t m res items Hok. unfold run_target, script. cbn [run_from]. rewrite start_doc. cbn [bind].
-  rewrite run_items. change (top_of st0) with true. change (lvl_of st0) with (@nil N, @nil tnode).
+  rewrite run_items. change (top_of st0) with true. change (lvl_of st0) with (@pair str (list tnode) [] []).
   assert (G : goal_at t m res true items [] []).
   { destruct m.
     - apply top_doc; [exact Hok|apply inv_nil].
     - apply Q_free_all. reflexivity. }
-  unfold goal_at in G. destruct (procs t m res true items ([], [])) as [l|] eqn:E; [|discriminate]. cbn [bind] in G.
+  unfold goal_at in G.
+  match goal with |- context [procs ?a ?b ?c ?d ?e ?f] => destruct (procs a b c d e f) as [l|] eqn:E end; [|discriminate G].
+  cbn [bind] in G.
   rewrite mt_nil_text, app_nil_r in G. fold (den_t t m res items) in G.
   cbn [run_from].
   assert (F : step t m res EvEndDoc (with_lvl st0 l) = Some (with_lvl st0 ([], rev (den_t t m res items)))).
